@@ -12,6 +12,7 @@ from ..harness import Query
 
 ID = 'C18'
 DEFAULT_FEATURES = True   # fast-check data is part of the graph state
+BUILD_PROBES = True   # evidence: the states behind the recorded findings are produced by the real builder
 ASSUMPTIONS = [
     'representation invariant of DESIGN.md section 3; segment roots are an arbitrary subset of the specifier universe passed in id order',
     'equality with a direct build of the segment roots is NOT decided (needs the async builder); the segment is compared with the original graph and with the walk oracle',
